@@ -43,7 +43,22 @@ def type_params(facts, b):
                         names.add(m.group(1))
         pb = facts.by_did.get(d)
         d = pb.parent_did if pb is not None else None
-    names.discard("Self")
+    # `Self` is a concrete crate type inside an impl, but the caller's own type inside a provided method of a trait (Buf::copy_to_bytes, ..)
+    in_trait = False
+    d = b.did
+    for _ in range(4):
+        fn = facts.fns_by_did.get(d)
+        if fn and fn.get("container_did") is not None:
+            in_trait = any(t.get("did") == fn.get("container_did") for t in facts.traits.values())
+            break
+        pb = facts.by_did.get(d)
+        d = pb.parent_did if pb is not None else None
+        if d is None:
+            break
+    if in_trait:
+        names.add("Self")
+    else:
+        names.discard("Self")
     return names
 
 
